@@ -1027,8 +1027,89 @@ def _fetch_cursor(b, cl):
     return x, fb
 
 
+# ---------------------------------------------------------------------------------------------------------------------
+# R10.8 `*/` ends a comment only when the `/` follows a `*`
+def _char_tested_against(b, cl, value):
+    """is the char local `cl` (or a copy of it) compared with `value` by a switch or an == test?"""
+    alias = {cl}
+    for _ in range(3):
+        for l, ds in b.defs().items():
+            for d in ds:
+                if d[1] == 'stmt' and 'use' in d[2] and op_local(d[2]['use']) in alias and not (op_place(d[2]['use']) or {}).get('p'):
+                    alias.add(l)
+    for bb in b.reachable():
+        t = b.term(bb)
+        if t['k'] == 'switch' and t.get('on_ty') == 'char' and op_local(t['on']) in alias and any(v == value for v, _ in t['targets']):
+            return True
+        for st in b.blocks[bb]['stmts']:
+            if st['k'] == 'assign' and st['rv'].get('bin') in ('Eq', 'Ne'):
+                for x, y in ((st['rv']['a'], st['rv']['b']), (st['rv']['b'], st['rv']['a'])):
+                    k = op_const(y)
+                    if k and k.get('ty') == 'char' and k.get('int') == value and op_local(x) in alias:
+                        return True
+    return False
+
+
+def r108(facts, res):
+    """Inside a /* */ comment the scanner looks at the character AFTER the current one, to see whether it is the `/` that
+    closes the comment.  That look-ahead may be reached only from the arm that has just seen `*`: reached from any other arm
+    (a line break that falls through to the same test), `<that character>/` closes the comment too and the rest of the
+    comment is parsed as grammar text."""
+    R = 'R10.8'
+    P = 'cfgrammar::yacc::parser::YaccParser'
+    n = 0
+    for b in facts.lib_bodies(['cfgrammar']):
+        if not (b.impl_of or '').startswith(P) or b.kind == 'closure':
+            continue
+        loops = b.loops()
+        # fetches: block of Chars::next -> the char local it yields (through unwrap)
+        fetched = {}
+        for bb, t in b.calls_named('next'):
+            if 'Chars' not in ((callee_of(t).get('self_ty') or '') + (cpath(t) or '')):
+                continue
+            for ub, ut in b.calls(lambda x: cname(x) in ('unwrap', 'expect')):
+                if ut['args'] and b.op_root(ut['args'][0], through=())[0] == t['dest']['l']:
+                    fetched[bb] = ut['dest']['l']
+        for sb in sorted(b.reachable()):
+            t = b.term(sb)
+            if not (t['k'] == 'switch' and t.get('on_ty') == 'char' and any(v == 42 for v, _ in t['targets'])):
+                continue
+            inl = [h for h in loops if sb in loops[h]]
+            if not inl:
+                continue
+            h = min(inl, key=lambda x: len(loops[x]))
+            L = loops[h]
+            # a later fetch in the same iteration whose character is tested against '/'
+            for fb, cl in sorted(fetched.items()):
+                if fb not in L or not _char_tested_against(b, cl, 47):
+                    continue
+                if fb not in b.reachable(starts=b.succs(sb), avoid={h}):
+                    continue
+                n += 1
+                edges = {}
+                for v, tgt in t['targets']:
+                    edges.setdefault(tgt, []).append(v)
+                edges.setdefault(t['otherwise'], []).append(None)
+                wrong = []
+                for tgt, vals in edges.items():
+                    if tgt == h:
+                        continue
+                    if fb in b.reachable(starts=(tgt,), avoid={h}) or tgt == fb:
+                        wrong += [v for v in vals if v != 42]
+                key = '%s/star-slash@L%d' % (b.name, n - 1)
+                if wrong:
+                    def show(v):
+                        return 'any other character' if v is None else repr(chr(v))
+                    res.bad(R, key, loc_of(b, sb), 'the test "is the next character the `/` that closes the comment" (line %s) is also reached after %s: '
+                            'that character followed by `/` ends the comment' % (b.blocks[fb]['term'].get('line'), ', '.join(show(v) for v in wrong)))
+                else:
+                    res.ok(R, key, loc_of(b, sb), 'the closing `/` is looked for only after a `*`')
+    res.floor(R, 'block-comment terminators', n, 1)
+
+
 def run(facts, res):
     r107(facts, res)
+    r108(facts, res)
     r105(facts, res)
     r106(facts, res)
     r101(facts, res)
